@@ -380,7 +380,7 @@ func corruptBytes(raw []byte, k *Corrupt) []byte {
 		case 11:
 			m.Version.Minor = byte(k.Arg)
 		case 12:
-			m.SequenceNumber = []uint64{0, 1<<48 - 1, 1 << 48, 1 << 63, 1<<64 - 1, m.SequenceNumber + 1000, 1<<48 - 2, 1 << 32, 1<<16 - 1}[k.Arg%9]
+			m.SequenceNumber = []uint64{0, 1<<48 - 1, 1 << 48, 1 << 63, 1<<64 - 1, m.SequenceNumber + 1000, 1<<48 - 2, 1<<48 + 5, 1<<16 - 1}[k.Arg%9]
 		}
 		if enc, err := scen.EncodeState(m); err == nil {
 			out = enc
@@ -455,6 +455,42 @@ func runCorrupt(c Case, r *pbt.R) {
 		}
 		if !changed || intact {
 			r.Class("semantically-intact")
+			// A state whose write counter says MORE records were sent than really were (up to
+			// "exhausted", >= 2^48) is accepted: the resumed connection must continue at or above that
+			// counter - and refuse to write when it is exhausted - never wrap or restart below it.
+			mo, e1 := scen.DecodeState(orig)
+			mm, e2 := scen.DecodeState(mutated)
+			// (judged only for counters a genuine session can hold: below 2^48, or exhausted plus the
+			// failed writes since; a counter near 2^64 exists in corrupted blobs only)
+			if e1 == nil && e2 == nil && mm.LocalEpoch == mo.LocalEpoch && mm.SequenceNumber > mo.SequenceNumber && mm.SequenceNumber < 1<<48+1<<20 {
+				mark := len(p.Net.Events())
+				_, werr1 := sd.Conn.Write(pl(8, 1))
+				_, werr2 := sd.Conn.Write(pl(8, 2))
+				scen.Settle()
+				cl := cidLens(&c, env)
+				to := "S"
+				if sd.Name == "S" {
+					to = "C"
+				}
+				for _, ev := range p.Net.Events()[mark:] {
+					if ev.From != sd.Name {
+						continue
+					}
+					recs, _ := scen.SplitDatagram(ev.Data, cl[to])
+					for _, rc := range recs {
+						if rc.Epoch != int(mo.LocalEpoch) || rc.Type == scen.CTAlert {
+							continue
+						}
+						if mm.SequenceNumber >= 1<<48 || rc.Seq < mm.SequenceNumber {
+							r.Failf("C19|sequence-counter-not-honoured-after-import", "state with write counter %d (original %d) resumed: a record with sequence number %d was emitted (write errors: %v, %v)", mm.SequenceNumber, mo.SequenceNumber, rc.Seq, werr1, werr2)
+
+							return
+						}
+					}
+				}
+				r.Class("write-counter-advanced")
+				r.NonTrivial()
+			}
 
 			return
 		}
